@@ -40,6 +40,16 @@ pub fn batch() -> &'static Batch {
     })
 }
 
+/// false for a declaration that had to be left out of this build because the derive macro of the tree under test
+/// does not compile it (see ./check and vcat::compiled::EXCLUDED)
+pub fn compiled_ok(d: &Decl) -> bool {
+    vcat::compiled::is_compiled(&d.name)
+}
+
+pub fn group_ok(ds: &[Arc<Decl>]) -> bool {
+    ds.iter().all(|d| compiled_ok(d))
+}
+
 pub fn decl_features(d: &Decl) -> Vec<&'static str> {
     let mut f = Vec::new();
     let mut rec = |r: &vmodel::Record, f: &mut Vec<&'static str>| {
@@ -209,6 +219,16 @@ pub fn run_c02(cx: &Cx) -> PropResult {
             if i % cx.shards != shard {
                 continue;
             }
+            if !compiled_ok(d) {
+                // the macro accepted this declaration on the tree the batch was generated for; now it does not compile
+                if let Some((_, why)) = vcat::compiled::EXCLUDED.iter().find(|(n, _)| *n == d.name) {
+                    if !why.starts_with("uses ") && acc.violations.is_empty() {
+                        acc.violation(format!("the derive macro no longer compiles this declaration ({why}):\n{}", decl_src(d)), json!({"does_not_compile": d.name, "declaration": full_decl_src(d)}));
+                    }
+                }
+                acc.exclude("declaration left out: the derive macro of this tree does not compile it");
+                continue;
+            }
             let strat = compiled_strategy(d);
             let stream = 10 + i as u64;
             if drive(tag_seed(derive_seed(cx.seed, cx.prop, i as u64, 7), stream), &strat, per_decl, acc, &|c: &DeclCase| to_json(c), &mut |c, a, r| check_c02(c, a, r)) {
@@ -232,6 +252,13 @@ pub fn run_c02(cx: &Cx) -> PropResult {
 }
 
 pub fn replay_c02(case: &Value) -> Verdict {
+    if let Some(n) = case.get("does_not_compile").and_then(|n| n.as_str()) {
+        // the build that produced this binary either compiled the declaration or left it out again
+        return match vcat::compiled::EXCLUDED.iter().find(|(x, _)| *x == n) {
+            Some((_, why)) => Verdict::Fail(format!("the derive macro does not compile declaration {n}: {why}")),
+            None => Verdict::Pass,
+        };
+    }
     let c: DeclCase = serde_json::from_value(case.clone()).expect("replay case");
     check_c02(&c, &mut Acc::new(), false)
 }
@@ -403,7 +430,7 @@ pub fn run_c13(cx: &Cx) -> PropResult {
     let n_dyn = cx.n(25_000, 800_000);
     let acc = parallel(cx, &|shard, acc| {
         for (i, fam) in fams.iter().enumerate() {
-            if i % cx.shards != shard {
+            if i % cx.shards != shard || !group_ok(fam) {
                 continue;
             }
             let strat = family_case_strategy(Some(i), fam.iter().cloned().map(Ty::Adt).collect());
@@ -618,7 +645,7 @@ fn transient_history_strategy() -> BoxedStrategy<TransientCase> {
 }
 
 pub fn run_c14(cx: &Cx) -> PropResult {
-    let all: Vec<Arc<Decl>> = batch().all().into_iter().filter(|d| decl_features(d).iter().any(|f| *f == "transient field" || *f == "transient constructor")).collect();
+    let all: Vec<Arc<Decl>> = batch().all().into_iter().filter(|d| compiled_ok(d) && decl_features(d).iter().any(|f| *f == "transient field" || *f == "transient constructor")).collect();
     let per_decl = cx.n(1_500, 30_000);
     let n_dyn = cx.n(25_000, 800_000);
     let acc = parallel(cx, &|shard, acc| {
